@@ -5,12 +5,13 @@ import base64, struct
 
 ID = 'C03'
 GENERATORS = ['gen_font',            # Model/Font.v (reused for glyphs_from_u8_data) needs Gen/FontConsts.v
+              'gen_sixel',           # Gen/SixelGen.v: MAX_SIXEL_DIMENSION of src/sixel_mod.rs and the three places that apply it (Props/C03.v sixel_limit_tied)
               'gen_macro',           # Gen/MacroLimit.v: MAX_MACRO_NESTING (Model/AnsiTok.v astep, Model/Cost.v macro_chars)
               'gen_codepage', 'gen_formats']   # extension (e): the loader models of C05 / C02 (Model/C05*.v, Model/C02Loaders.v) need Gen/Codepage.v, Gen/Formats.v
 COQ_TARGETS = ['Props/C03.vo', 'Run/RunC03.vo', 'Run/RunC03L.vo']
 PROPS_MODULE = 'Props.C03'
 THEOREMS = ['cost_bound', 'cost_bound_sp', 'prim_ticks_bound', 'ticks_bound_scroll', 'tick_version_same_state', 'fixed_arms_only', 'sp_arms_only',
-            'rep_clamped', 'rep_linear_before_fix', 'rep_before_fix_refuted', 'hexmacro_refuted', 'macro_recursion_before_fix_refuted', 'sixel_repeat_linear', 'sixel_raster_refuted',
+            'rep_clamped', 'rep_linear_before_fix', 'rep_before_fix_refuted', 'hexmacro_refuted', 'macro_recursion_before_fix_refuted', 'sixel_repeat_linear', 'sixel_raster_before_fix_refuted', 'sixel_raster_refused',
             'avatar_repeat_bound', 'glyph_iters_bound', 'window_ticks_bound',
             # extension (a): allocation
             'alloc_version_same_state', 'alloc_counts_growth', 'alloc_dominates', 'alloc_bound', 'alloc_bound_state', 'alloc_bound_sp', 'alloc_bound_dollar',
@@ -20,7 +21,7 @@ THEOREMS = ['cost_bound', 'cost_bound_sp', 'prim_ticks_bound', 'ticks_bound_scro
             'hexmacro_bound', 'hexmacro_bound_cond', 'hexmacro_linear', 'macro_replay_bound', 'macro_replay_total', 'macro_recursion_bounded', 'macro_limit_conservative',
             'macro_invokes_half', 'macro_table_ok',
             # extension (d): sixel decoder
-            'sixel_ticks_bound', 'sixel_alloc_bound', 'sixel_image_bound',
+            'sixel_ticks_bound', 'sixel_alloc_bound', 'sixel_image_bound', 'sixel_ticks_bound_abs', 'sixel_alloc_bound_abs', 'sixel_image_bound_abs', 'sixel_limit_tied',
             # extension (e): binary loaders
             'load_ticks_bound_pair', 'load_ticks_bound_xbc', 'load_ticks_bound_tnd', 'load_ticks_bound_idf']
 SWEEP_LEMMAS = []
@@ -284,20 +285,21 @@ def special_cases(ctx):
     seq('macro-nesting', E + b'P1;0;1!z41' + ST + E + b'P2;0;1!z' + b'1B5B312A7A' * 2 + ST + E + b'[2*z')
     seq('macro-nesting', E + b'P1;0;1!z!9;41;' + ST + E + b'P2;0;1!z!9;1B5B312A7A;' + ST + E + b'[2*z')
     # sixel through the parser (decode thread joined by the harness)
-    for ww, hh in [(1, 1), (80, 25), (2000, 2000), (65536, 1), (1, 65536), (99999, 99999), (1000000, 1000000), (2147483647, 2147483647), (0, 2147483647), (2147483647, 0)]:
-        known = ww * hh * 4 > (256 << 20) or hh > 20000000
-        if known and quick and (ww, hh) != (99999, 99999): continue
-        seq('sixel-raster', E + b'Pq"1;1;%d;%d~' % (ww, hh) + ST, is_slow=known)
-    for hh in [1, 65536, 1000000, 2147483647]:
-        known = hh > 20000000
-        if known and quick: continue
-        seq('sixel-raster', E + b'Pq"1;1;%d~' % hh + ST, is_slow=known)
-    for n in [0, 1, 2000, 65536, 1000000, 2147483647]:
-        known = n >= 1000000
-        if n >= 2147483647 and quick: continue
-        seq('sixel-repeat', E + b'Pq!%d~' % n + ST, is_slow=(n >= 2147483647))
+    # (regression inputs of the former known classes sixel-raster / sixel-repeat: ordinary cases since MAX_SIXEL_DIMENSION = 4096)
+    for ww, hh in [(1, 1), (80, 25), (2000, 2000), (4096, 4096), (4097, 1), (1, 4097), (4097, 4097), (65536, 1), (1, 65536), (99999, 99999), (1000000, 1000000),
+                   (2147483647, 2147483647), (0, 2147483647), (2147483647, 0)]:
+        seq('sixel-raster', E + b'Pq"1;1;%d;%d~' % (ww, hh) + ST)
+        seq('sixel-raster', E + b'Pq"1;1;%d;%d!%d~' % (ww, hh, ww) + ST)
+    for hh in [1, 4096, 4097, 65536, 1000000, 2147483647]:
+        seq('sixel-raster', E + b'Pq"1;1;%d~' % hh + ST)
+    for n in [0, 1, 2000, 4095, 4096, 4097, 65536, 1000000, 10000000, 2147483647]:
+        seq('sixel-repeat', E + b'Pq!%d~' % n + ST)
+        seq('sixel-repeat', E + b'Pq!%d~-!%d~-!%d~' % (n, n, n) + ST)
         seq('sixel-repeat', E + b'Pq!%d-' % n + ST)
+        seq('sixel-repeat', E + b'Pq!%d-~' % n + ST)
         seq('sixel-repeat', E + b'Pq!%d$' % n + ST)
+        seq('sixel-repeat', E + b'Pq!%d\x80' % n + ST)
+        seq('sixel-repeat', E + b'Pq!%d?!%d?!%d?~' % (n, n, n) + ST)
     seq('sixel', E + b'Pq#2147483647;2;2147483647;2147483647;2147483647~' + ST)
     seq('sixel', E + b'Pq' + b'-' * 40 + b'~' + ST)
     # Avatar repeat: every count byte
@@ -645,6 +647,9 @@ def sixel_payloads(ctx):
     rng = ctx.rng
     out = [b'', b'~', b'~~-~', b'!5~', b'!0~', b'!', b'!~', b'"1;1;10;20~', b'"1;1;7~', b'"1;1~', b'"1~', b'"1;1;2;2;2~', b'#1;2;100;0;0~', b'#1;2;100;0~',
            b'#5~', b'#300~', b'#1;1;120;50;50~', b'!400-~', b'!3$~', b'~$~-?', b'"1;1;0;0~~', b'"1;1;3;1~-~-~', b'!12"1;1;5;5~', b'!3#1~', b'>', b'~\x80~', b'#1;3;1;1;1~']
+    # around MAX_SIXEL_DIMENSION = 4096 (cheap for the list model: refused ones, or nothing / little drawn)
+    out += [b'!4097~', b'!4096?', b'!4096?~', b'!4095?~', b'!4096$~', b'!4097$', b'"1;1;4097;1~', b'"1;1;1;4097~', b'"1;1;2;4096~', b'"1;1;4096~', b'"1;1;4097~', b'!4096-~', b'!683-~',
+            b'!682-~', b'!681-~', b'"1;1;1;4096!682-~', b'!2147483647~', b'!2147483647-', b'"1;1;99999;99999~', b'"1;1;2147483647;2147483647~', b'!4095?!1?~', b'!4095?!2?~', b'!65536\x80']
     alpha = b'?@ABN^n~-$' * 3 + b'!#";0123456789'
     for _ in range(ctx.n(120, 600)):
         k = rng.randint(1, 24)
@@ -1003,8 +1008,8 @@ def correspondence(ctx):
         it, reps, dw, dh, rows_, longest, nbytes, cap = m[1:9]
         if v[3] != rows_ or v[4] != nbytes:
             dis.append({'case': c, 'impl': v[1:5], 'model': m, 'what': 'sixel image: height / bytes differ (code: ok width height bytes; model: .. rows longest bytes cap)'}); continue
-        if nbytes > cap or it > len(b_) + 1 + reps:
-            dis.append({'case': c, 'impl': v[1:5], 'model': m, 'what': 'the model counters exceed sixel_image_bound / sixel_ticks_bound'}); continue
+        if nbytes > cap or it > len(b_) + 1 + reps or nbytes > 4 * 4096 * 4096 or it > (len(b_) + 1) * 4097:
+            dis.append({'case': c, 'impl': v[1:5], 'model': m, 'what': 'the model counters exceed sixel_image_bound / sixel_ticks_bound (or their _abs forms)'}); continue
         if v[0] > 50 * per_tick * (it + nbytes) + 50000 and v[0] > 5_000_000:
             dis.append({'case': c, 'impl': v[0], 'model': m, 'what': 'sixel decode time beyond the 5 s limit while the model counts %d iterations' % it}); continue
         if nbytes > 0: nontriv.add(c)
@@ -1084,7 +1089,8 @@ LEVEL_TEXT = ('PARTIAL (by design: time and memory are runtime facts). Machine-c
               'alloc_dominates, alloc_counts_growth) - unconditionally for SU SD ICH DCH IL DL SL SR CVT CBT CUU CUD ECH ED EL SGR DECFRA DECERA DECSERA DECRQCRA window resize after the ten clamp fixes; '
               'REP after its repair (at most width x height copies: rep_clamped; old loop: rep_before_fix_refuted) is inside cost_bound and ticks_bound, not yet inside alloc_bound. Conditional bounds with the known class as the explicit parameter: hex-macro repeat groups (hexmacro_bound: '
               'work and expansion <= (1 + largest repeat count) x length), macro replay (macro_replay_bound: geometric in the nesting depth; recursion refuted), the sixel decoder '
-              '(sixel_ticks_bound: iterations <= payload + executed repeat counts; sixel_alloc_bound / sixel_image_bound: bytes <= 4 max(T, declared width) x max(6T+6, declared height)), '
+              '(sixel_ticks_bound: iterations <= payload + executed repeat counts; sixel_alloc_bound / sixel_image_bound: bytes <= 4 max(T, declared width) x max(6T+6, declared height); '
+              'after the size-limit fix also without any number of the payload: sixel_ticks_bound_abs <= length x 4097, sixel_alloc_bound_abs / sixel_image_bound_abs <= 4 x 4096 x 4096 = 64 MiB), '
               'the cell loops of the binary loaders BIN ADF XBin Tundra IDF (load_ticks_bound_*: cells stored <= bytes (x 65 for compressed XBin) + declared run lengths; rows x cells of the loaded layer). '
               'The counters are attached to the very model functions of C09/C01/C14/C05/C02 (tick_version_same_state, alloc_version_same_state, *_arms_only, the fst-equalities inside the bounds). '
               'The property\'s own limits (5 s, 1 GiB, stack) are applied to the complete control-function table on the real code by stage S.')
@@ -1093,6 +1099,6 @@ LEVEL_NOTE = ('Theorems speak about iteration/allocation counts of the model; th
               'and stage S (absolute limits on the real code: single control functions, the same in prepared states, and probe suffixes on the state they leave). '
               'Extension: stage C also compares the threaded allocation counter and instances of alloc_bound / ticks_bound on every CSI case, the rectangle functions, '
               'characters printed by hex macros and nested macros (vs hexmacro_bound / macro_replay_bound), rows / bytes of decoded sixel images, and width / height / rows / cells of '
-              'buffers loaded from generated BIN ADF XBin Tundra IDF files. Known classes: hex-macro repeat, macro recursion, sixel raster/repeat, declared sizes of loaders.')
+              'buffers loaded from generated BIN ADF XBin Tundra IDF files. Known classes: hex-macro repeat, declared sizes of loaders.')
 TECHNIQUE = ('Coq proof over tick-annotated model functions (arithmetic bounds from the C09 invariant) + exhaustive control-function table under process limits, '
              'on a fresh screen and on prepared states, with probe suffixes and terminal-state comparison against the model')
